@@ -318,6 +318,37 @@ def _run_variant(args):
         shutil.rmtree(d, ignore_errors=True)
 
 
+def package_sweep(repo):
+    """Whole-package cross-reference output (not a verdict): the path-insensitive analyses run
+    over every function of the package, so a reader can see what the anchored rules leave out."""
+    from .program import Program, norm
+    from .rules.html import possibly_unbound
+    from .rules.reflect import getattr_sites
+    prog = Program(repo)
+    unbound = {}
+    for f in prog.all_functions():
+        iss = sorted({n for n, _ in possibly_unbound(f, None)})
+        if iss:
+            unbound[f.qualname] = iss
+    stores = []
+    for f in prog.all_functions():
+        if f.name == "__init__":
+            continue
+        for n in ast.walk(f.node):
+            if isinstance(n, (ast.Assign, ast.AugAssign)):
+                for t in (n.targets if isinstance(n, ast.Assign) else [n.target]):
+                    if isinstance(t, ast.Attribute):
+                        stores.append(f"{f.qualname}: {norm(n)[:80]}")
+    refl = [f"{f.qualname}: {norm(c)} -> {sorted(a) if a is not None else 'unbounded'}" for f, c, t, a in getattr_sites(prog)]
+    return {
+        "functions": len(prog.functions), "classes": len(prog.classes),
+        "possibly_unbound_locals_all_functions": unbound,
+        "note_possibly_unbound": "validate_rule_paths.actual_type is a known infeasible-path report in code no property anchors",
+        "attribute_stores_outside___init__": stores,
+        "reflection_sites": refl,
+    }
+
+
 def main_thorough(pid, seed, repo=None):
     repo = repo or REPO
     t0 = time.time()
@@ -362,6 +393,7 @@ def main_thorough(pid, seed, repo=None):
         "neutral_alarms": [{"variant": s[0], "outcome": s[1], "first": s[2]} for s in noisy],
         "kill_samples": [{"variant": k[0], "report": k[2]} for k in killed[:12]],
     }
+    cov["package_sweep_cross_reference"] = package_sweep(repo)
     cov["programs"] = len(mine)
     cov["disagreements_checked"] = len(survived) + len(noisy)
     ev["wall_s"] = round(time.time() - t0, 3)
